@@ -22,6 +22,7 @@ QUICK_SCALE = 2.5  # quick-tier multiplier (idle 16-core timing: ~10 s at scale 
 STRATA = [
     ("random-small", 6000, 60000),
     ("edited", 1500, 15000),
+    ("too-deep", 3, 30),
     ("blueprint", 6000, 60000),
     ("dag", 2200, 22000),
     ("near-dag", 2200, 22000),
@@ -82,6 +83,21 @@ def gen(stratum, rng, tier):
         p = rng.choice([0.08, 0.15, 0.25, 0.4, 0.6])
         e = gc.gnp(rng, n, p, loops=rng.choice([0, 0, 0.15]))
         return _mk(rng, n, e, lab, dup=rng.choice([0, 0.2, 0.5]))
+    if stratum == "too-deep":
+        # a path deeper than the recursion limit behind a small component that is finished first.  The module documents
+        # that such graphs need a higher recursion limit: RecursionError is the documented answer - but an answer that is
+        # returned has to be right
+        n = rng.randint(1300, 1800)
+        k = rng.randint(2, 4)
+        cyc = [f"c{i}" for i in range(k)]
+        chain = list(range(n))
+        adj = {cyc[i]: [cyc[(i + 1) % k]] for i in range(k)}
+        for i in range(n - 1):
+            adj[i] = [i + 1]
+        adj[n - 1] = [cyc[0]]
+        if rng.random() < 0.5:
+            adj[rng.randrange(n // 2, n)] .append(rng.randrange(0, n // 2))  # one long back arc: a big SCC as well
+        return {"kind": "too-deep", "nodes": cyc + chain, "adj": adj}
     if stratum == "edited":
         # one graph object, edited between calls, queried through ONE neighbour function (a module-level def, a bound
         # method of a long-lived object): every call is about the graph as it is now
@@ -503,7 +519,68 @@ def _run_edited(case, obs):
             return
 
 
+def _run_too_deep(case, obs):
+    from vf.common import call, is_crash
+
+    nodes, adj = case["nodes"], case["adj"]
+    ns = set(nodes)
+    # reference: iterative Kosaraju (the oracle module's exact routines are sized for small graphs)
+    order, seen = [], set()
+    for r in nodes:
+        if r in seen:
+            continue
+        st = [(r, iter(adj.get(r, ())))]
+        seen.add(r)
+        while st:
+            v, it = st[-1]
+            for w in it:
+                if w in ns and w not in seen:
+                    seen.add(w)
+                    st.append((w, iter(adj.get(w, ()))))
+                    break
+            else:
+                order.append(v)
+                st.pop()
+    radj = {v: [] for v in nodes}
+    for v in nodes:
+        for w in adj.get(v, ()):
+            if w in ns:
+                radj[w].append(v)
+    comp = {}
+    for r in reversed(order):
+        if r in comp:
+            continue
+        comp[r] = r
+        st = [r]
+        while st:
+            v = st.pop()
+            for w in radj[v]:
+                if w not in comp:
+                    comp[w] = r
+                    st.append(w)
+    classes = {}
+    for v, r in comp.items():
+        classes.setdefault(r, set()).add(v)
+    want = {frozenset(c) for c in classes.values()}
+    obs.nontrivial = True
+    r = call(obs, _scc.strongly_connected_components, list(nodes), lambda v: list(adj.get(v, ())), budget=200_000_000,
+             what="strongly_connected_components[deeper than the recursion limit]", expect=(RecursionError,))
+    if is_crash(r):
+        obs.event("scc.too-deep.recursion-error")  # documented: "you may need to increase the recursion limit"
+        return
+    obs.event("scc.too-deep.answered")
+    comps = r.solution
+    got = [frozenset(c) for c in comps] if isinstance(comps, (list, tuple)) else None
+    if got is None or len(got) != len(set(got)) or set(got) != want or sum(len(c) for c in got) != len(nodes):
+        obs.violate("scc.partition", f"{len(nodes)} nodes, {len(want)} strongly connected components; returned "
+                    f"{len(got) if got is not None else None} components covering {sum(len(c) for c in got) if got else 0} node slots")
+    elif r.objective != len(want):
+        obs.violate("scc.count", f"objective {r.objective!r}, {len(want)} components")
+
+
 def run(case, obs):
+    if case["kind"] == "too-deep":
+        return _run_too_deep(case, obs)
     if case["kind"] == "edited":
         return _run_edited(case, obs)
     if case["kind"] == "exh":
